@@ -348,4 +348,5 @@ macro_rules! api_mod {
 }
 
 api_mod!(st, twofloat);
+#[cfg(feature = "nostd_cfg")]
 api_mod!(ns, tf_nostd);
